@@ -34,9 +34,15 @@ MANIFEST = {
                   "whole input (error without looping). Typed messages: writers are op lists run through the C13 model of "
                   "bits.FixedSliceWriter; that this equals the bit-list form (coded bits, zero padding, cut at the capacity Size()) is PROVED for "
                   "canonical messages (C17_timecode_exec, C17_pic_timing_avc_exec) and additionally compared on every correspondence case; "
-                  "C17_typed_msgs_ok / C17_timecode_in_nalu compose the typed results with the list round trip. bits.Reader is modelled "
-                  "directly as reads on the payload's bit list (first failed read = error outcome): that link is exercised by the "
-                  "correspondence, not proved. Out-of-domain values (more than 3 clocks, pict_struct > 8, clock/external time-offset "
+                  "C17_typed_msgs_ok / C17_timecode_in_nalu compose the typed results with the list round trip. bits.Reader: the typed decoders "
+                  "are stated on reads of the payload's bit list (first failed read = error outcome); C17_decoders_tie PROVES that the same Go "
+                  "functions transcribed over the C13 model of the bits.Reader machine (value/n/pos accumulator, accumulated error: reads after "
+                  "a failure return 0 and the decoder runs on, AccError() checked last, byte()/uint16()/uint32() conversions written out; "
+                  "coq/c17/C17TieModel.v) return the same value-or-error on EVERY byte string for all 5-bit external length parameters, and "
+                  "C17_roundtrip_machine restates the round trips for them; both forms are run against the Go decoders on every T/D/H "
+                  "correspondence case. What remains trusted there is the C13 transcription of bits.Reader.Read itself (C13's correspondence). "
+                  "C17_decoded_is_canonical: every value a typed decoder returns is canonical, so decode -> canonical-preserving edits stays in "
+                  "the theorems' domain (C17_decoded_history_roundtrip). Out-of-domain values (more than 3 clocks, pict_struct > 8, clock/external time-offset "
                   "length mismatch, fields wider than their code) are not canonical: modelled and compared, not covered by the theorems. "
                   "Crash safety of the decoders on hostile payloads belongs to C16.",
 }
@@ -58,7 +64,9 @@ def run(ctx):
         "(bits.EBSPWriter / bits.EBSPReader); io errors and the Seek of MoreRbspData are not modelled",
         "spec: coq/c17/C17Spec.v (0xFF-run code, plain serialisation, rbsp-level extractor), coq/c13/C13Spec.v (escape/unescape)",
         "model: coq/c17/C17TypedModel.v is a hand transcription of sei136.go, sei1_avc.go, sei137.go, sei144.go, sei4.go, sei5.go, "
-        "sei1_hevc.go (outcome class only for the HEVC picture timing); bits.Reader is modelled as reads on a bit list",
+        "sei1_hevc.go (outcome class only for the HEVC picture timing); coq/c17/C17HistModel.v: a typed message value is its exported "
+        "field record (histories: build|decode, edit/copy/observe/re-decode steps); coq/c17/C17TieModel.v: DecodeTimeCodeSEI / "
+        "DecodePicTimingAvcSEIHRD over the C13 bits.Reader machine (proved equal to the bit-list decoders)",
         "imported C13 lemmas (coq/c13/C13WriterProofs.v, C13ReaderProofs.v, C13MarkProofs.v): part of the proof, checked by the same build",
     ]
     ctx.assumptions += ["Type() < 2^64 (Go uint), Size() = len(Payload()) < 2^32 (the extractor accumulates the size in a uint32)",
